@@ -6,7 +6,7 @@
    fields, values or on their magnitudes). *)
 From Coq Require Import List NArith ZArith Bool.
 From PV Require Import Model.MiniProto Model.Lower Model.Validate Model.ValiditySpec Model.ProtocDescriptor.
-From PV Require Import Proofs.ValidateRanges Proofs.Validate Proofs.ValidateJson Proofs.ValidateBasic.
+From PV Require Import Proofs.ValidateRanges Proofs.Validate Proofs.ValidateJson Proofs.ValidateBasic Proofs.ExtDecl.
 Import ListNotations.
 Open Scope Z_scope.
 
@@ -94,6 +94,17 @@ Print Assumptions C01_validate_field_iff.
 Theorem C01_validate_basic_iff : forall d, file_wf d -> (validate_basic d = [] <-> file_valid d).
 Proof. exact validate_basic_iff_lemma. Qed.
 Print Assumptions C01_validate_basic_iff.
+
+(* ---- extension declarations: validateExtension walks the extension ranges of the extendee, skips
+   those that do not contain the number and checks the declaration in the first that does.  For
+   pairwise disjoint ranges (what validateBasic enforces) this is the declarative reading: the one
+   range that contains the number is consulted; if it asks for declarations the declaration with
+   that number must exist, not be reserved, and match full name, type and cardinality ---- *)
+Theorem C01_extension_range_lookup_iff : forall miss xrs num fn ty rep,
+  ~ two_share in_ho (map xr_rng xrs) ->
+  go_ext_decl_errs miss xrs num fn ty rep = spec_ext_decl_errs miss xrs num fn ty rep.
+Proof. exact extension_range_lookup_iff_lemma. Qed.
+Print Assumptions C01_extension_range_lookup_iff.
 
 (* ---- F2: JSON names ---- *)
 (* proto3 / editions: no error iff default names pairwise distinct and effective names pairwise distinct *)
